@@ -221,7 +221,18 @@ def make_system(case, i):
 def tmp_root(tag):
     from . import bootstrap
 
-    d = os.path.join(bootstrap.VERIF, ".build", "tmp", "c16_%d_%s" % (os.getpid(), tag))
+    base = os.path.join(bootstrap.VERIF, ".build", "tmp")
+    os.makedirs(base, exist_ok=True)
+    import time
+
+    for name in os.listdir(base):      # left-overs of killed workers (older than two hours)
+        q = os.path.join(base, name)
+        try:
+            if name.startswith("c16_") and time.time() - os.path.getmtime(q) > 7200:
+                shutil.rmtree(q, ignore_errors=True)
+        except OSError:
+            pass
+    d = os.path.join(base, "c16_%d_%s" % (os.getpid(), tag))
     shutil.rmtree(d, ignore_errors=True)
     os.makedirs(d)
     return d
